@@ -152,7 +152,7 @@ static void op_obs(spif_obj_t o, char *b, size_t n) { spif_objpair_t p = SPIF_OB
 
 /* ------------------------------------------------------------------ tok */
 static const char *TKB[] = { "new()", "from_ptr(\"a b\")", "from_ptr(\"a b\")+eval", "from_ptr(\"a,b c\")+set_sep(\",\")+eval", "from_ptr(\"\")+eval", "from_ptr(\"b\")",
-                             "from_ptr(\"a b\")+eval+set_sep(\",\") (not evaluated again)", "from_ptr(\"a b\")+eval+set_src(\"x y z\") (not evaluated again)" };
+                             "from_ptr(\"a b\")+eval+set_sep(\",\") (not evaluated again)", "from_ptr(\"a b\")+eval+set_src(\"x y z\") (not evaluated again)", "new_from_fp(a stream at end of file)" };
 static spif_obj_t tk_build(int i)
 {
     spif_tok_t t;
@@ -164,6 +164,7 @@ static spif_obj_t tk_build(int i)
     case 4: t = spif_tok_new_from_ptr((spif_charptr_t) ""); spif_tok_eval(t); return SPIF_OBJ(t);
     case 6: t = spif_tok_new_from_ptr((spif_charptr_t) "a b"); spif_tok_eval(t); spif_tok_set_sep(t, spif_str_new_from_ptr((spif_charptr_t) ",")); return SPIF_OBJ(t);
     case 7: t = spif_tok_new_from_ptr((spif_charptr_t) "a b"); spif_tok_eval(t); spif_tok_set_src(t, spif_str_new_from_ptr((spif_charptr_t) "x y z")); return SPIF_OBJ(t);
+    case 8: { FILE *f = fopen("/dev/null", "r"); t = f ? spif_tok_new_from_fp(f) : (spif_tok_t) NULL; if (f) fclose(f); if (!t) t = spif_tok_new(); return SPIF_OBJ(t); }       /* nothing to read: an object without text, or none at all (then a plain new one stands in; what the refused constructor left behind shows in the heap) */
     default: return SPIF_OBJ(spif_tok_new_from_ptr((spif_charptr_t) "b"));
     }
 }
@@ -285,7 +286,7 @@ static spif_obj_t new_container(int kind)
     case 9: return SPIF_MAP_NEW(array); case 10: return SPIF_MAP_NEW(linked_list); default: return SPIF_MAP_NEW(dlinked_list);
     }
 }
-static const char *LSB[] = { "[]", "[a]", "[a,b]", "[b,a,a]", "[a,-,b] (insert_at beyond the end)", "[-,a]", "[a,b,c]", "[300 elements e000..e299]" };
+static const char *LSB[] = { "[]", "[a]", "[a,b]", "[b,a,a]", "[a,-,b] (insert_at beyond the end)", "[-,a]", "[a,b,c]", "[url http://h/p, a] (an element that is not a plain string)", "[300 elements e000..e299]" };
 static spif_obj_t ls_build(int i)
 {
     spif_list_t l = new_container(KIND_LIST);
@@ -296,7 +297,8 @@ static spif_obj_t ls_build(int i)
     case 4: SPIF_LIST_APPEND(l, S_("a")); SPIF_LIST_INSERT_AT(l, S_("b"), 2); break;
     case 5: SPIF_LIST_INSERT_AT(l, S_("a"), 1); break;
     case 6: SPIF_LIST_APPEND(l, S_("a")); SPIF_LIST_APPEND(l, S_("b")); SPIF_LIST_APPEND(l, S_("c")); break;
-    case 7: for (int k = 0; k < 300; k++) { char t[8]; snprintf(t, sizeof t, "e%03d", k); SPIF_LIST_APPEND(l, S_(t)); } break;
+    case 8: for (int k = 0; k < 300; k++) { char t[8]; snprintf(t, sizeof t, "e%03d", k); SPIF_LIST_APPEND(l, S_(t)); } break;
+    case 7: SPIF_LIST_APPEND(l, SPIF_OBJ(spif_url_new_from_ptr((spif_charptr_t) "http://h/p"))); SPIF_LIST_APPEND(l, S_("a")); break;
     }
     return l;
 }
